@@ -637,3 +637,11 @@ Proof. intros kts last. apply Forall_forall. intros t _. destruct t; auto. Qed.
 Lemma carry_head last k r :
   fst (carry last (k :: r)) = pickle_type last k :: fst (carry (pickle_type last k) r).
 Proof. simpl. destruct (carry (pickle_type last k) r). reflexivity. Qed.
+
+(* a run of and/but steps, however long, repeats the type before it -- and hands it on to what follows *)
+Lemma carry_conjunction_run last n r :
+  fst (carry last (repeat Conjunction n ++ r)) = repeat last n ++ fst (carry last r).
+Proof.
+  induction n as [|n IH]; [reflexivity|]. cbn [repeat app]. rewrite carry_head. cbn [pickle_type]. rewrite IH. reflexivity.
+Qed.
+
